@@ -115,7 +115,7 @@ def run_C16(ctx):
 
         # declaration mixes (explicit numbers, re-declarations, tokens known only from precedence lines or rules, -1 alias)
         import frontprops
-        mixes = frontprops.c11_specs(ctx)[:(30 if ctx.quick else 300)]
+        mixes = frontprops.c11_specs(ctx)[:(80 if ctx.quick else 400)]
         base = len(gs)
         for mi, (mname, sp) in enumerate(mixes):
             gi = base + mi
